@@ -158,7 +158,9 @@ def main(argv=None):
         return replay_file(args.replay)
     t0 = time.time()
     prop = args.prop
-    cases = load_cases(prop)
+    all_cases = load_cases(prop)
+    cases = [(m, c) for m, c in all_cases if tier == "thorough" or c.tier != "thorough"]
+    skipped_thorough = [c.name for m, c in all_cases if c.tier == "thorough" and tier != "thorough"]
     lines = []
     status = 0
 
@@ -331,6 +333,7 @@ def main(argv=None):
             "known_findings": kf_report,
             "file_hashes": files,
             "cases": [c.name for _, c in cases],
+            "cases_run_only_in_thorough_tier": skipped_thorough,
             "not_covered": NOT_COVERED.get(prop, []),
         },
         "assumptions": ASSUMPTIONS,
